@@ -113,7 +113,7 @@ theorem hook_called_iff (eff : Content → FS → FS) (w : World) (p : Plan) (hg
 
 /-- a hook that installs what it is given is called exactly once when a write is due (no bytecode cache) -/
 theorem hook_called_once (eff : Content → FS → FS) (w : World) (p : Plan) (hgood : Good w.fs)
-    (hcoh : PycCoherent w) (hpyc : dropsBytecode = true ∨ w.pyc = none)
+    (hcoh : PycCoherent w) (hpyc : dropsBytecodeHook = true ∨ w.pyc = none)
     (hinst : ∀ c fs, ∃ t, (eff c fs) .mod = some ⟨c, t⟩) (hdue : Due w) :
     (construct (hookWriter eff) w p).calls.length = 1 := by
   have hk : hookArgsOk = true := hookArgs_ok
@@ -123,7 +123,8 @@ theorem hook_called_once (eff : Content → FS → FS) (w : World) (p : Plan) (h
       ⟨newContent w p.size1, t⟩ (by simpa [afterGroup, hookWriter] using ht) (by simp [newContent])
       (by
         intro m s c h
-        obtain ⟨hnd, hp⟩ := afterGroup_pyc h
+        obtain ⟨hnd, hp⟩ := afterGroup_pyc' h
+        have hnd : dropsBytecodeHook = false := by simpa [hookWriter] using hnd
         rcases hpyc with hfix | hnone
         · rw [hfix] at hnd; cases hnd
         · rw [hnone] at hp; cases hp)
@@ -183,10 +184,10 @@ theorem NoPyc.fresh {w : World} (h : NoPyc w) (p : Plan) : PycFresh w p := by
 
 theorem afterGroup_nopyc {w : World} (g : GroupOut) (h : NoPyc w) : NoPyc (afterGroup w g) := by
   refine ⟨?_, h.2⟩
-  show (if dropsBytecode = true then none else w.pyc) = none
-  split
-  · rfl
-  · exact h.1
+  show (if (if g.viaHook then dropsBytecodeHook else dropsBytecode) = true then none else w.pyc) = none
+  by_cases hb : (if g.viaHook then dropsBytecodeHook else dropsBytecode) = true
+  · rw [if_pos hb]
+  · rw [if_neg hb]; exact h.1
 
 theorem phase2_nopyc (wr : Writer) (w1 : World) (p : Plan) (left : Option Nat) (acts : List Act) (n : Nat)
     (calls : List (Content × P)) (h : NoPyc w1) : NoPyc (phase2 wr w1 p left acts n calls).world := by
